@@ -31,3 +31,6 @@ mod errors;
 mod server;
 
 pub use server::start_server;
+
+#[cfg(dmntk_verif)]
+pub use server::verif::VerifAppData;
